@@ -262,6 +262,98 @@ func init() {
 				check([]string{a, tags[(i*7+3)%len(tags)], a})
 			}
 		}
+		// names of the registries: a global / a modifier reached through its alias, its namespaced name or its
+		// namespaced alias is the global / modifier reached through its plain name (a relation on the real engine alone)
+		for _, pair := range [][2]string{{`{%= e|default(vgplain) %}`, `{%= e|default(vgalias) %}`}, {`{%= e|default(vg::greeting) %}`, `{%= e|default(vg::hi) %}`},
+			{`{%= e|default(vg::greeting)|vcat(vgplain, vg::hi) %}`, `{%= e|default(vg::hi)|vcat(vgalias, vg::greeting) %}`}, {`{%= v|vcat("a", v) %}`, `{%= v|vns::cat("a", v) %}`},
+			{`{%= v|vcat("a", {k: v}) %}`, `{%= v|vns::c("a", {k: v}) %}`}, {`{%h= v|vcatplain(1)|vcat(2) %}`, `{%h= v|vcp(1)|vns::c(2) %}`}, {`{%= e|default(vgplain)|vns::cat() %}`, `{%= e|def(vgalias)|vcp() %}`}} {
+			var outs [2]rendered
+			bad := ""
+			for k := 0; k < 2; k++ {
+				key, err, pan := regTpl(pair[k], true)
+				if err != nil || pan != "" {
+					bad = fmt.Sprintf("Parse rejects %s: %v %s", pair[k], err, pan)
+					break
+				}
+				ctx := dyntpl.NewCtx()
+				ctx.SetString("e", "")
+				ctx.SetString("v", "V<1>")
+				outs[k] = renderSafe(key, ctx)
+			}
+			sig := "registry-names " + pair[1]
+			r.Count(sig, true)
+			r.Dist["registry-names"]++
+			want := ""
+			if strings.Contains(pair[0], "default(vgplain) %}") {
+				want = "G<1>"
+			} else if strings.Contains(pair[0], "default(vg::greeting) %}") {
+				want = "G<2>"
+			}
+			if bad != "" || outs[0].ErrStr() != outs[1].ErrStr() || !bytes.Equal(outs[0].Out, outs[1].Out) || len(outs[0].Out) == 0 || (want != "" && string(outs[0].Out) != want) {
+				r.Violate(sig, "a global / modifier used through its alias or its namespaced name does not behave like the same global / modifier used through its plain name",
+					map[string]any{"by_name": pair[0], "by_alias": pair[1], "by_name_output": string(outs[0].Out), "by_alias_output": string(outs[1].Out), "by_name_error": outs[0].ErrStr(), "by_alias_error": outs[1].ErrStr(), "problem": bad,
+						"registered": []string{`RegisterGlobal("vgplain", "vgalias", "G<1>")`, `RegisterGlobalNS("vg", "greeting", "hi", "G<2>")`, `RegisterModFnNS("vns", "cat", "c", vcat)`, `RegisterModFn("vcatplain", "vcp", vcat)`}})
+			}
+		}
+		// escape letters together with a prefix, a suffix or both: the letters apply to the VALUE, prefix and suffix stand
+		// around it as written — every letter, runs and mixes, every spelling of the keywords (a relation on the real
+		// engine alone; the parser oracle sees the same tags below)
+		{
+			var ocases []*RCase
+			for _, l := range []string{"h", "a", "j", "q", "J", "u", "l", "c", "cc", "JJ", "hJ", "cu", "qc", "f.2", "F.1"} {
+				val := any(`a<b>&"c' d/e`)
+				if l[0] == 'f' || l[0] == 'F' {
+					val = 3.14159
+				}
+				k0, err0, pan0 := regTpl("{%"+l+"= v %}", true)
+				if err0 != nil || pan0 != "" {
+					r.Internal("letters with prefix/suffix: the plain tag does not parse: " + l)
+					continue
+				}
+				c0 := dyntpl.NewCtx()
+				c0.SetStatic("v", val)
+				plain := renderSafe(k0, c0)
+				for _, form := range [][3]string{{"", "sfx", ";"}, {"", "suffix", "</i>"}, {"pfx", "", "["}, {"prefix", "", "<i>"}, {"pfx", "sfx", "()"}, {"prefix", "suffix", "<>"}} {
+					pre, suf := "", ""
+					tag := "{%" + l + "= v"
+					if form[0] != "" {
+						pre = form[2][:1]
+						tag += " " + form[0] + " " + pre
+					}
+					if form[1] != "" {
+						suf = form[2][len(form[2])-1:]
+						if form[0] == "" {
+							suf = form[2]
+						}
+						tag += " " + form[1] + " " + suf
+					}
+					tag += " %}"
+					key, err, pan := regTpl(tag, true)
+					var got rendered
+					if err == nil && pan == "" {
+						ctx := dyntpl.NewCtx()
+						ctx.SetStatic("v", val)
+						got = renderSafe(key, ctx)
+					}
+					want := pre + string(plain.Out) + suf
+					sig := "letters-with-prefix-suffix " + tag
+					r.Count(sig, true)
+					r.Dist["letters-with-prefix-suffix"]++
+					if err != nil || pan != "" || got.Err != nil || got.Panic != "" || string(got.Out) != want {
+						r.Violate(sig, "escape letters combined with a prefix / suffix do not render prefix, the escaped value and suffix",
+							map[string]any{"source": tag, "output": string(got.Out), "expected": want, "plain_tag": "{%" + l + "= v %}", "plain_tag_output": string(plain.Out), "error": got.ErrStr(), "parse_error": fmt.Sprint(err)})
+					}
+					body := []TNode{Print{Letters: l, Path: "v", Pre: pre, Suf: suf, PreKW: form[0], SufKW: form[1]}}
+					if Source(body) == tag && (l[0] == 'f' || l[0] == 'F') {
+						// (precision directives are outside the interpreter model: parser oracle only)
+						tieTemplates(r, []TplDef{{Key: "main", Src: tag, KeepFmt: true, Ast: body}})
+					} else if Source(body) == tag {
+						ocases = append(ocases, &RCase{Tpls: []TplDef{{Key: "main", Src: tag, KeepFmt: true, Ast: body}}, Ops: []SOp{{Kind: "static", Name: "v", Val: val}, {Kind: "render", Key: "main"}}})
+					}
+				}
+			}
+			runSessions(r, ocases, outputDiffers)
+		}
 		// spellings of a key-value group (a relation on the real engine alone: the parser decides what the
 		// modifier receives): blanks after "{", before "}", around ":" and ",", single quotes — the same arguments
 		respell := []func(string) string{
